@@ -178,6 +178,9 @@ class DimEval(Evaluator):
             return math.pi
         if d in ("math.sqrt", "numpy.sqrt"):
             return lambda x: lift(x) ** F(1, 2)
+        if isinstance(node.value, ast.Name) and node.value.id in ("dict", "str", "list", "tuple") and node.value.id not in self.env and not node.attr.startswith("_"):
+            # dict.fromkeys, str.join, ...: the builtin's own pure class-level function
+            return getattr({"dict": dict, "str": str, "list": list, "tuple": tuple}[node.value.id], node.attr)
         return super().ev_Attribute(node)
 
     def binop(self, node, op, a, b):
